@@ -76,7 +76,9 @@ def mv_case(draw, klass=False):
     else:
         nfft = "nextpow2"
     return {"x": x, "m": m, "nfft": nfft, "fs": draw(gen.sampling),
-            "as_list": draw(st.booleans())}
+            "as_list": draw(st.booleans()),
+            # class form only: the object is first evaluated at another dimension, then ar_order is assigned m
+            "reuse": draw(st.sampled_from([None, None, -1, 1])) if klass else None}
 
 
 def _nfft(case):
@@ -235,7 +237,15 @@ def c16_class(ctx, case):
         return
     x, m, nfft, R, cond, (a, P, k) = s
     fs = case["fs"]
-    p = spectrum.pminvar(_arg(case, x), m, NFFT=case["nfft"], sampling=fs)
+    m0 = m + case["reuse"] if case.get("reuse") else m
+    if m0 != m and 2 <= m0 <= len(x) // 2 and 2 * m0 <= nfft:
+        # object re-use: evaluated at dimension m0 first; after the assignment it is the dimension-m estimate that is asked for
+        p = spectrum.pminvar(_arg(case, x), m0, NFFT=case["nfft"], sampling=fs)
+        _ = p.psd
+        p.ar_order = m
+        ctx.cls("reused object")
+    else:
+        p = spectrum.pminvar(_arg(case, x), m, NFFT=case["nfft"], sampling=fs)
     psd = np.asarray(p.psd)
     f = np.asarray(list(p.frequencies()), dtype=float)
     real = not np.iscomplexobj(x)
